@@ -4,6 +4,7 @@ import obligations
 import ordimpls
 import provenance
 import guards
+import writes
 import mutations
 
 CH = 'lightning::ln::channel::'
@@ -424,3 +425,4 @@ RULES.append(('02.u', 'obligation-carrying values returned by workspace calls (t
 RULES.append(('02.t', 'identity comparisons: every reviewed (function, identity type) == / != comparison (HTLCSource, Txid, OutPoint, ChannelId, PaymentHash, PublicKey, ...) is still made - a function does not silently change what it matches by (rules/provenance.py)', lambda F: provenance.ids_for_property(F, 'C02', '02.t')))
 RULES.append(('02.M', 'collection mutations: every reviewed (function, stored collection, mutator class: add / remove / filter / empty / swap / order) triple is still present - an entry that is no longer removed, inserted or drained on one path (rules/mutations.py)', lambda F: mutations.for_property(F, 'C02', '02.M')))
 RULES.append(('02.G', 'guard census: no reviewed call of a workspace function and no reviewed mutation of a stored collection gained a controlling branch condition (an added `&& cond`, early return / continue, more specific match arm in front of an act); counts per call site, name free (rules/guards.py)', lambda F: guards.for_property(F, 'C02', '02.G')))
+RULES.append(('02.W', 'field assignments: every reviewed (function, Type.field) direct assignment is still made - state that a path no longer updates, or updates only conditionally (get_or_insert for an overwrite); generalises NN.R (rules/writes.py)', lambda F: writes.for_property(F, 'C02', '02.W')))
